@@ -173,9 +173,9 @@ theorem joinAfter_step
         joinAndLeave env n states name state data ctx retries r st)
     (name : Str) (state data ctx : Json) (retries : Nat) (a b : Except Res (List Json) × St)
     (hab : a.1 ≠ Except.error Res.fuel → b = a) :
-    (joinAndLeave env n states name state data ctx retries a.1 a.2).1 ≠ Res.fuel →
-    joinAndLeave env (n + 1) states name state data ctx retries b.1 b.2 =
-      joinAndLeave env n states name state data ctx retries a.1 a.2 := by
+    (joinAndLeave env n states name state data ctx retries a.1 (a.2.join (isErr a.1))).1 ≠ Res.fuel →
+    joinAndLeave env (n + 1) states name state data ctx retries b.1 (b.2.join (isErr b.1)) =
+      joinAndLeave env n states name state data ctx retries a.1 (a.2.join (isErr a.1)) := by
   intro h
   have ha : a.1 ≠ Except.error Res.fuel := by
     intro e
@@ -275,19 +275,19 @@ theorem runBranches_step (env : Env) (n : Nat)
     split
     · rename_i start states hs hst
       intro h
-      cases hr : runFrom env n states start params ctx 0 st with
+      cases hr : runFrom env n states start params ctx 0 st.startBranch with
       | mk r1 s1 =>
         rw [hr] at h
-        cases hrest : runBranches env n bs params ctx (s1.at st.clock) with
+        cases hrest : runBranches env n bs params ctx ((s1.endBranch (isFailed r1)).at st.clock) with
         | mk rest s2 =>
           simp only [hrest] at h
           have hr1 : r1 ≠ Res.fuel := by
             intro e; subst e; exact h (fanCombine_fuel_left _ _ _ _)
           have hrest1 : rest ≠ Except.error Res.fuel := by
             intro e; subst e; exact h (fanCombine_fuel_right _ _ _ _)
-          have e1 := hF states start params ctx 0 st (by rw [hr]; exact hr1)
+          have e1 := hF states start params ctx 0 st.startBranch (by rw [hr]; exact hr1)
           rw [e1, hr]
-          have e2 := hB bs params ctx (s1.at st.clock) (by rw [hrest]; exact hrest1)
+          have e2 := hB bs params ctx ((s1.endBranch (isFailed r1)).at st.clock) (by rw [hrest]; exact hrest1)
           simp only [e2, hrest]
     · intro _; trivial
 
@@ -312,23 +312,25 @@ theorem runItems_step (env : Env) (n : Nat)
       split
       · rename_i start states hs hst
         intro h
-        generalize hbs : (if mc ≠ 0 ∧ i ≠ 0 ∧ i % mc = 0 then st.waitUntil be else st) = st0 at h ⊢
-        cases hr : runFrom env n states start params ctx 0 (st0.push (.iterStarted (ctxStateName ctx) i)) with
+        generalize hbs : (if mc ≠ 0 ∧ i ≠ 0 ∧ i % mc = 0 then
+            (st.waitUntil be).batch (ctxStateName ctx) (List.replicate (min mc (items.length + 1)) ((fldStr proc "StartAt").getD []))
+          else st) = st0 at h ⊢
+        cases hr : runFrom env n states start params ctx 0 ((st0.push (.iterStarted (ctxStateName ctx) i)).startBranch) with
         | mk r1 s1 =>
           rw [hr] at h
           cases hrest : runItems env n proc sel input items (i + 1) mc (rmax be s1.clock) ctx
-              ((s1.iterEnd (ctxStateName ctx) i r1).at st0.clock) with
+              (((s1.iterEnd (ctxStateName ctx) i r1).endBranch (isFailed r1)).at st0.clock) with
           | mk rest s2 =>
             simp only [hrest] at h
             have hr1 : r1 ≠ Res.fuel := by
               intro e; subst e; exact h (fanCombine_fuel_left _ _ _ _)
             have hrest1 : rest ≠ Except.error Res.fuel := by
               intro e; subst e; exact h (fanCombine_fuel_right _ _ _ _)
-            have e1 := hF states start params ctx 0 (st0.push (.iterStarted (ctxStateName ctx) i))
+            have e1 := hF states start params ctx 0 ((st0.push (.iterStarted (ctxStateName ctx) i)).startBranch)
               (by rw [hr]; exact hr1)
             rw [e1, hr]
             have e2 := hI proc sel input items (i + 1) mc (rmax be s1.clock) ctx
-              ((s1.iterEnd (ctxStateName ctx) i r1).at st0.clock) (by rw [hrest]; exact hrest1)
+              (((s1.iterEnd (ctxStateName ctx) i r1).endBranch (isFailed r1)).at st0.clock) (by rw [hrest]; exact hrest1)
             simp only [e2, hrest]
       · intro _; trivial
 
